@@ -317,3 +317,78 @@ Definition handle_inbound (f : pfilter) (p : pbl) (exempt : bool) (ip : N) (deco
 Definition new_filter (en : bool) (r : option rate_limiter) (ban : option N) (mn mb : option N) : pfilter :=
   {| enabled := en; rate := r; ban_duration := ban; known_addrs := []; banned_nodes := [];
      max_nodes_per_ip := mn; max_bans_per_ip := mb |}.
+
+(* ---------------------------------------------------------------------------------------------- *)
+(* Histories as data (the correspondence run and the trace theorems) *)
+
+(* a history of one Limiter *)
+Inductive levent :=
+| LAllows (elapsed key tokens : N)
+| LPrune (elapsed : N).
+
+Definition levent_time (e : levent) : N :=
+  match e with LAllows el _ _ => el | LPrune el => el end.
+
+Definition lstep (l : limiter) (e : levent) : limiter * option verdict :=
+  match e with
+  | LAllows el k n => let (l', v) := allows l el k n in (l', Some v)
+  | LPrune el => (prune l el, None)
+  end.
+
+Fixpoint lrun (l : limiter) (evs : list levent) : limiter * list (option verdict) :=
+  match evs with
+  | [] => (l, [])
+  | e :: rest =>
+    let (l1, v) := lstep l e in
+    let (l2, vs) := lrun l1 rest in (l2, v :: vs)
+  end.
+
+(* a history of the filter and the global permit/ban list *)
+Inductive fevent :=
+| FInitial (ip : N)
+| FFinal (ip id : N)
+| FInbound (exempt : bool) (ip : N) (decoded : option (option N))
+| FPruneLimiter
+| FUnbanCheck
+(* the application-level calls of Discv5 on the global list (permit_ip / permit_ip_remove, ...);
+   a ban carries Some duration or None = permanent *)
+| FPermitIp (ip : N) (add : bool)
+| FPermitNode (id : N) (add : bool)
+| FBanIp (ip : N) (add : bool) (dur : option N)
+| FBanNode (id : N) (add : bool) (dur : option N).
+
+Inductive fobs := ONone | OBool (b : bool) | OFate (x : fate).
+
+Definition add_or_remove (add : bool) (x : N) (l : list N) : list N :=
+  if add then (if mem x l then l else l ++ [x]) else List.filter (fun y => negb (y =? x)) l.
+
+Definition fstep (f : pfilter) (p : pbl) (e : fevent) (now : N) : pfilter * pbl * fobs :=
+  match e with
+  | FInitial ip => let '(f', p', b) := initial_pass f p ip now in (f', p', OBool b)
+  | FFinal ip id => let '(f', p', b) := final_pass f p ip id now in (f', p', OBool b)
+  | FInbound ex ip d => let '(f', p', x) := handle_inbound f p ex ip d now in (f', p', OFate x)
+  | FPruneLimiter => (prune_limiter f now, p, ONone)
+  | FUnbanCheck => (f, unban_check p now, ONone)
+  | FPermitIp ip add =>
+    (f, {| permit_ips := add_or_remove add ip (permit_ips p); ban_ips := ban_ips p;
+           permit_nodes := permit_nodes p; ban_nodes := ban_nodes p |}, ONone)
+  | FPermitNode id add =>
+    (f, {| permit_ips := permit_ips p; ban_ips := ban_ips p;
+           permit_nodes := add_or_remove add id (permit_nodes p); ban_nodes := ban_nodes p |}, ONone)
+  | FBanIp ip add dur =>
+    (f, if add then with_ban_ip p ip (option_map (fun d => now + d) dur)
+        else {| permit_ips := permit_ips p; ban_ips := unset ip (ban_ips p);
+                permit_nodes := permit_nodes p; ban_nodes := ban_nodes p |}, ONone)
+  | FBanNode id add dur =>
+    (f, if add then with_ban_node p id (option_map (fun d => now + d) dur)
+        else {| permit_ips := permit_ips p; ban_ips := ban_ips p;
+                permit_nodes := permit_nodes p; ban_nodes := unset id (ban_nodes p) |}, ONone)
+  end.
+
+Fixpoint frun (f : pfilter) (p : pbl) (evs : list (fevent * N)) : pfilter * pbl * list fobs :=
+  match evs with
+  | [] => (f, p, [])
+  | (e, now) :: rest =>
+    let '(f1, p1, o) := fstep f p e now in
+    let '(f2, p2, os) := frun f1 p1 rest in (f2, p2, o :: os)
+  end.
